@@ -117,6 +117,7 @@ def run(tier, seed):
     scen = list({json.dumps(b["hist"]): b for b in four + eight + links}.values())
     scen.append({"hist": [["late_link", "", "", ""]], "adversarial": "late_link"})
     scen.append({"hist": [["full_mailbox", "", "", ""]], "adversarial": "full_mailbox"})
+    scen.append({"hist": [["name_move", "", "", ""]], "adversarial": "name_move"})
     for i, s in enumerate(scen):
         s["id"] = i
     sp = os.path.join(lib.outdir(PID), "scenarios.ndjson")
@@ -132,6 +133,15 @@ def run(tier, seed):
         case = {"operations": s["hist"]}
         if "tool_error" in o:
             raise lib.ToolError("localproc runner: " + o["tool_error"])
+        if s.get("adversarial") == "name_move":
+            if o["notes"] or not (o["unregister_ok"] and o["register_to_q_ok"]):
+                v.add_drift("name-move schedule could not be forced: " + "; ".join(o["notes"]), {**case, "obs": o})
+            else:
+                if o["p_gone"] and not o["svc_resolves_to_q"]:
+                    v.violation("a name that was moved to a live process while its former owner was terminating stopped resolving to the live process when the former owner was removed", {**case, "obs": o})
+                if o["p_gone"] and o["late_register_ok"] and o["late_resolves"]:
+                    v.violation("a name registered for a terminating process still resolves after the process is gone", {**case, "obs": o})
+            continue
         if s.get("adversarial") == "full_mailbox":
             if not (o["link_ok"] and o["monitor_ok"]) or o["queued_until_full"] == 0:
                 v.add_drift("back-pressure scenario could not be set up", {**case, "obs": o})
